@@ -2,7 +2,7 @@
 
 usage: d_proofs.py <jobs.ndjson> <out.ndjson> <shard> <nshards>
 
-job = {id, logic, argstr | arg (encoded), g, r, mode: "build"|"step", max_steps, models: 0|1,
+job = {id, logic, argstr | arg (encoded), g, r, mode: "build"|"step"|"peek" (= step, with a discarded Tableau.next() before every step), max_steps, models: 0|1,
        level: "verdict"|"final"|"full", timeout_s}
 Everything is observed through the public API (Tableau.step(), history, open,
 stat(), tree, stats, Branch.new_constant/new_world wrapped in this process).
@@ -144,6 +144,16 @@ def state(tab, ids, full):
         })
     st['branches'] = brs
     st['open'] = [index[id(b)] for b in tab.open]
+    # the same view through its other access paths (reverse iteration, length, indexing from both ends, membership)
+    op = tab.open
+    try:
+        st['open_rev'] = [index.get(id(b), -1) for b in reversed(op)]
+        st['open_len'] = len(op)
+        st['open_item'] = [index.get(id(op[k]), -1) for k in range(len(op))]
+        st['open_last'] = index.get(id(op[-1]), -1) if len(op) else -1
+        st['open_member'] = [int(b in op) for b in tab]
+    except Exception as e:
+        st['open_rev'], st['open_len'], st['open_item'], st['open_last'], st['open_member'] = [-9], -9, [-9], -9, [-9]
     st['nodes'] = [dict(enc_node(n), step=int(getattr(n, 'step', -1))) for n in ids.nodes]
     return st
 
@@ -271,6 +281,9 @@ def run_job(job):
         else:
             while True:
                 nw = len(rec['witness'])
+                if rec['mode'] == 'peek':
+                    # a step-by-step user may look at what the prover would do next without doing it
+                    tab.next()
                 entry = tab.step()
                 if level != 'verdict':
                     ev = {'e': 'step', 'returned': int(entry is not None),
